@@ -12,6 +12,8 @@ A case:
      ["retcopy", loc, off, size]       RETURNDATACOPY
      ["mcopy", dst, src, size]         MCOPY
      ["mloadstore", src, dst]          MLOAD src ; MSTORE dst
+     ["mload", off] / ["msize"]        observations BETWEEN the writes (top-level frame only): MLOAD off / MSIZE, the result
+                                       stays on the stack and is compared at the end of the path
      ["call", kind, aloc, asize, [basic ops], roff, rsize, oloc, osize, end]
                                        kind: STATICCALL | CALL | DELEGATECALL | CALLCODE; end: RETURN | REVERT
      ["create", kind, loc, [basic ops], roff, rsize, end]   (at most one per case) kind: CREATE | CREATE2; the init code
@@ -108,6 +110,10 @@ def basic_items(op):
         return [_push(op[3]), _push(op[2]), _push(op[1]), "MCOPY"]
     if k == "mloadstore":
         return [_push(op[1]), "MLOAD", _push(op[2]), "MSTORE"]
+    if k == "mload":
+        return [_push(op[1]), "MLOAD"]
+    if k == "msize":
+        return ["MSIZE"]
     raise ValueError(k)
 
 
@@ -191,6 +197,17 @@ def variants(case):
 
 # ----------------------------------------------------------------- independent spec (EVM semantics, flat lists)
 
+OBS = ("mload", "msize")
+
+
+def word_of_int(n):
+    return list(int(n).to_bytes(32, "big"))
+
+
+def spec_obs(op, mem):
+    return read_padded(mem, op[1], 32) if op[0] == "mload" else word_of_int((len(mem) + 31) // 32 * 32)
+
+
 def spec_basic(op, mem, rd, cd, codeb, case):
     """-> (mem, halted)"""
     k = op[0]
@@ -215,6 +232,8 @@ def spec_basic(op, mem, rd, cd, codeb, case):
         return mem_write(mem, op[1], read_padded(mem, op[2], op[3])), False
     if k == "mloadstore":
         return mem_write(mem, op[2], read_padded(mem, op[1], 32)), False
+    if k in OBS:
+        return mem, False
     raise ValueError(k)
 
 
@@ -251,7 +270,11 @@ def spec_run(case, accounts, callee_code, ops=None, start=None):
     cd = calldata_codes(case)
     mem, rd = start if start is not None else ([], [])
     this_code = list(accounts[THIS])
+    obs = []
     for i, op in (ops if ops is not None else variants(case)[0]):
+        if op[0] in OBS:
+            obs.append(spec_obs(op, mem))
+            continue
         if op[0] == "create_raw":
             d = spec_init_returns(op, mem, case)
             rd = d if (d is not None and op[7] == "REVERT") else []
@@ -271,7 +294,7 @@ def spec_run(case, accounts, callee_code, ops=None, start=None):
             if halted:
                 return ("halt",)
     end = case.get("end")
-    return ("ok", mem, rd, read_padded(mem, end[1], end[2]) if end else [])
+    return ("ok", mem, rd, read_padded(mem, end[1], end[2]) if end else [], obs)
 
 
 # ----------------------------------------------------------------- model side
@@ -315,7 +338,7 @@ def enc_basic(op, cd, case):
 
 def enc_case(case, accounts, callee_code, ops=None):
     cd = calldata_codes(case)
-    ops = list(ops) if ops is not None else variants(case)[0]
+    ops = [(i, op) for i, op in (list(ops) if ops is not None else variants(case)[0]) if op[0] not in OBS]
     segs = [s for s in case["calldata"] if (len(s[1]) if s[0] == "c" else s[2]) > 0]
     out = [len(segs)]
     for seg in segs:
@@ -344,6 +367,30 @@ def enc_case(case, accounts, callee_code, ops=None):
             out += enc_basic(op, cd, case)
     if case.get("end"):
         out += [case["end"][1], case["end"][2]]
+    return out
+
+
+def enc_observations(case, accounts, callee_code, ops):
+    """one model call per observation of the instruction sequence: the model run on the instructions before it, read
+    with mslice(off, 32) (MLOAD) / msize"""
+    c2 = dict(case)
+    c2.pop("end", None)
+    calls = []
+    for j, (_, op) in enumerate(ops):
+        if op[0] in OBS:
+            calls.append(enc_case(c2, accounts, callee_code, ops[:j]) + [op[1] if op[0] == "mload" else 0, 32])
+    return calls
+
+
+def dec_observations(ops, results):
+    """-> list of 32 byte code lists, or None if the model halted somewhere"""
+    out = []
+    kinds = [op[0] for _, op in ops if op[0] in OBS]
+    for k, res in zip(kinds, results):
+        m = dec_model(res)
+        if m[0] != "ok":
+            return None
+        out.append(m[6] if k == "mload" else word_of_int(m[5]))
     return out
 
 
@@ -477,6 +524,12 @@ def impl_run(case):
             lay, flat = layout(mem)
             rd = ex.returndata()
             rd_items = layout(rd)[1] if rd is not None else []
+            stack_items = []
+            for w in ex.st.stack[:-1]:
+                if getattr(w, "is_concrete", False):
+                    stack_items.append(word_of_int(w.value))
+                else:
+                    stack_items.append(bv_items(w.as_z3()))
             top = ex.st.stack[-1] if ex.st.stack else None
             msize = top.value if top is not None and getattr(top, "is_concrete", False) else (int(str(top)) if top is not None else None)
             od = ex.context.output.data
@@ -486,7 +539,7 @@ def impl_run(case):
             for a, contract in ex.code.items():
                 if not (z3.is_bv_value(a) and a.as_long() in known):
                     new.append(layout(contract._code)[1])
-            return ("ok", len(mem), lay, flat, rd_items, msize, out_items, new)
+            return ("ok", len(mem), lay, flat, rd_items, msize, out_items, new, stack_items)
         except Exception as e:  # noqa: BLE001
             return ("exc", f"observation failed: {type(e).__name__}: {e}"[:200])
 
@@ -560,7 +613,12 @@ def compare_spec1(case, impl, spec):
         return None
     if impl[0] == "halt":
         return {"observable": "halts", "implementation": impl[1], "spec": "runs to STOP"}
-    _, ln, lay, flat, rd, msize, outd, _new = impl
+    _, ln, lay, flat, rd, msize, outd, _new, stack = impl
+    if len(stack) != len(spec[4]):
+        return {"observable": "stack-height", "implementation": len(stack), "spec": len(spec[4])}
+    for j, (want, got) in enumerate(zip(spec[4], stack)):
+        if not same_items(want, got):
+            return {"observable": "observation-between-writes", "nth": j, "implementation": str(got)[:300], "spec": str(want)[:300]}
     if ln != len(spec[1]):
         return {"observable": "memory-length", "implementation": ln, "spec": len(spec[1])}
     if not same_items(spec[1], flat):
@@ -624,8 +682,13 @@ def compare_model1(case, impl, model):
         return {"observable": "halts", "implementation": impl[:2], "model": model[0]}
     if impl[0] == "halt":
         return None
-    _, ln, lay, flat, rd, msize, outd, _new = impl
-    _, mln, mlay, mflat, mrd, mmsize, moutd = model
+    _, ln, lay, flat, rd, msize, outd, _new, stack = impl
+    _, mln, mlay, mflat, mrd, mmsize, moutd = model[:7]
+    mobs = model[7] if len(model) > 7 else None
+    if mobs is not None:
+        for j, (want, got) in enumerate(zip(mobs, stack)):
+            if not same_items(want, got):
+                return {"observable": "observation-between-writes", "nth": j, "implementation": str(got)[:300], "model": str(want)[:300]}
     if ln != mln:
         return {"observable": "memory-length", "implementation": ln, "model": mln}
     if lay != mlay and not same_layout(lay, flat, mlay, mflat):
@@ -727,6 +790,11 @@ def gen_case(r, tag="mem"):
             op = gen_basic(r, False, cdlen, rdlen, memlen)
         case["ops"].append(op)
         memlen = max(memlen, _end(op))
+        if r.random() < 0.3:
+            # observe between the writes; often the place just written
+            for _ in range(r.choice([1, 1, 2])):
+                case["ops"].append(["msize"] if r.random() < 0.3 else
+                                   ["mload", r.choice(GRID + [max(0, memlen - 32), max(0, _end(op) - 32), max(0, _end(op) - 1), memlen])])
     if r.random() < 0.3:
         case["end"] = [r.choice(["RETURN", "RETURN", "REVERT"]), r.choice(GRID + [max(0, memlen - 3), memlen]), r.choice(SIZES)]
     # a path fork (JUMPI on the symbolic CALLVALUE), often while the memory is still empty
@@ -755,7 +823,7 @@ def _end(op):
         return op[7] + min(op[8], op[6]) if min(op[8], op[6]) else 0
     if k == "create":
         return op[2] + (len(init_code(op)) + 31) // 32 * 32
-    return 0
+    return 0    # observations write nothing
 
 
 CORPUS = [
@@ -804,6 +872,14 @@ CORPUS += [
      "ops": [["copy", "cd", 2, 0, 5]], "end": ["RETURN", 4, 0]},
 ]
 
+
+CORPUS += [
+    # observations between the writes: the same word and MSIZE read again after each write (MSTORE8 twice at one offset)
+    {"tag": "mem-corpus", "calldata": [["s", 0, 33]], "ext": {"code": [0xE0 + i for i in range(12)]},
+     "ops": [["msize"], ["mload", 0], ["mstore8", 0, ["c", 0x11]], ["mload", 0], ["msize"], ["mstore8", 0, ["c", 0x22]], ["mload", 0], ["mload", 0],
+             ["copy", "cd", 1, 0, 33], ["mload", 0], ["mload", 2], ["msize"], ["mcopy", 40, 40, 30], ["msize"], ["mload", 60],
+             ["mstore", 0, ["cd", 1]], ["mload", 0], ["mstore", 0, ["c", [7] * 32]], ["mload", 0], ["msize"]]},
+]
 
 CORPUS += [
     # a creation: the init code copies its (empty) calldata and its own code, sets a byte and returns the runtime code
